@@ -400,3 +400,306 @@ Section Ratio.
       lia.
   Qed.
 End Ratio.
+
+(** ================= F. consequences of a gap bound (greedy, KK, round-robin ...) ================= *)
+
+(** 5. any partition whose spread is at most the largest value is within (2 - 1/k) of the optimum *)
+Theorem gap_ratio_2 k vs s opt : (1 <= k)%nat -> Forall (fun v => 0 <= v) vs ->
+  Attainable k vs s -> zmax s - zmin s <= zmax vs -> Opt MinLargest k vs opt ->
+  Z.of_nat k * zmax s <= (2 * Z.of_nat k - 1) * opt.
+Proof.
+  intros Hk Hpos Hs Hgap Hopt.
+  destruct (opt_minlargest_lower_bounds _ _ _ Hopt Hpos Hk) as [Hsum _].
+  pose proof (opt_minlargest_ge_vmax _ _ _ Hopt Hpos Hk) as Hvmax.
+  pose proof (Attainable_length _ _ _ Hs) as Hlen. pose proof (Attainable_sum _ _ _ Hs) as Hss.
+  assert (Hne : s <> []) by (apply length_pos_ne; lia).
+  pose proof (zsum_ge_one_plus_rest (zmax s) (zmin s) s (zmax_in s Hne) (zmin_le s)) as H1.
+  rewrite Hlen in H1.
+  assert (H2 : (Z.of_nat k - 1) * zmax s <= (Z.of_nat k - 1) * (zmin s + zmax vs))
+    by (apply Z.mul_le_mono_nonneg_l; lia).
+  assert (H3 : (Z.of_nat k - 1) * zmax vs <= (Z.of_nat k - 1) * opt)
+    by (apply Z.mul_le_mono_nonneg_l; lia).
+  lia.
+Qed.
+
+(** the smallest sum of such a partition is within one largest value of the max-min optimum *)
+Theorem gap_min_bound k vs s v : (1 <= k)%nat ->
+  Attainable k vs s -> zmax s - zmin s <= zmax vs -> Opt MaxSmallest k vs v ->
+  (- v) - zmax vs <= zmin s.
+Proof.
+  intros Hk Hs Hgap [(s' & Hs' & Ev) _]. rewrite value_MaxSmallest in Ev.
+  pose proof (len_min_le_zsum s') as H1.
+  rewrite (Attainable_length _ _ _ Hs'), (Attainable_sum _ _ _ Hs') in H1.
+  pose proof (zsum_le_len_max s) as H2.
+  rewrite (Attainable_length _ _ _ Hs), (Attainable_sum _ _ _ Hs) in H2.
+  assert (H3 : Z.of_nat k * zmax s <= Z.of_nat k * (zmin s + zmax vs))
+    by (apply Z.mul_le_mono_nonneg_l; lia).
+  assert (H4 : zmin s' <= zmin s + zmax vs) by (apply (Z.mul_le_mono_pos_l _ _ (Z.of_nat k)); lia).
+  lia.
+Qed.
+
+Section Ratio2.
+  Context {A : Type} (valueof : A -> Z) (keep : bool).
+
+  (** L <= (2 - 1/k) OPT *)
+  Theorem lpt_ratio_2 k items opt : (1 <= k)%nat -> Forall (fun x => 0 <= valueof x) items ->
+    Opt MinLargest k (map valueof items) opt ->
+    Z.of_nat k * zmax (sums (greedy valueof keep k items)) <= (2 * Z.of_nat k - 1) * opt.
+  Proof.
+    intros Hk Hpos Hopt.
+    apply (gap_ratio_2 k (map valueof items)); auto.
+    - apply values_nonneg; exact Hpos.
+    - apply greedy_attainable; exact Hk.
+    - apply greedy_gap_gen; exact Hpos.
+  Qed.
+
+  (** 4. the smallest sum of greedy:  m >= OPTmin - vmax,  where OPTmin = - v *)
+  Theorem lpt_min_partial k items v : (1 <= k)%nat -> Forall (fun x => 0 <= valueof x) items ->
+    Opt MaxSmallest k (map valueof items) v ->
+    (- v) - zmax (map valueof items) <= zmin (sums (greedy valueof keep k items)).
+  Proof.
+    intros Hk Hpos Hopt.
+    apply (gap_min_bound k (map valueof items)); auto.
+    - apply greedy_attainable; exact Hk.
+    - apply greedy_gap_gen; exact Hpos.
+  Qed.
+End Ratio2.
+
+(** ================= G. Graham's bound  L <= (4/3 - 1/(3k)) OPT ================= *)
+
+(** --- G1. running two load vectors (values and weights) along the same assignment --- *)
+
+Lemma Forall2_update {T U} (P : T -> U -> Prop) (f : T -> T) (g : U -> U) :
+  (forall a b, P a b -> P (f a) (g b)) ->
+  forall s t, Forall2 P s t -> forall i, Forall2 P (update i f s) (update i g t).
+Proof.
+  intros Hfg s t H. induction H as [|a b s t Hab Hst IH]; intros [|i]; simpl; constructor; auto.
+Qed.
+
+Lemma Forall2_repeat {T U} (P : T -> U -> Prop) a b n : P a b -> Forall2 P (repeat a n) (repeat b n).
+Proof. intros H. induction n as [|n IH]; simpl; constructor; auto. Qed.
+
+Lemma Forall2_transfer {T U} (P : T -> U -> Prop) (Q : T -> Prop) (R : U -> Prop) :
+  (forall a b, P a b -> Q a -> R b) -> forall s t, Forall2 P s t -> Forall Q s -> Forall R t.
+Proof.
+  intros HPQ s t H. induction H as [|a b s t Hab Hst IH]; intros HQ; constructor;
+    inversion HQ as [|a' s' Ha Hs]; subst; eauto.
+Qed.
+
+Lemma loads_from_pair (P : Z -> Z -> Prop) (w : Z -> Z) vs :
+  Forall (fun a => forall l wl, P l wl -> P (l + a) (wl + w a)) vs ->
+  forall asg s0 t0, Forall2 P s0 t0 ->
+  Forall2 P (loads_from s0 vs asg) (loads_from t0 (map w vs) asg).
+Proof.
+  induction 1 as [|x t Hx Ht IH]; intros [|i asg] s0 t0 H0; try exact H0.
+  cbn [map]. rewrite !loads_from_cons. apply IH.
+  apply Forall2_update; [|exact H0]. intros a b Hab. apply Hx; exact Hab.
+Qed.
+
+(** the vector of total weights per bin, for the assignment that produced s *)
+Lemma weights_along (P : Z -> Z -> Prop) (w : Z -> Z) k vs s :
+  P 0 0 -> Forall (fun a => forall l wl, P l wl -> P (l + a) (wl + w a)) vs ->
+  Attainable k vs s ->
+  exists t, Forall2 P s t /\ length t = k /\ zsum t = zsum (map w vs).
+Proof.
+  intros H0 Hstep (asg & Hl & Hv & E). exists (loads k (map w vs) asg).
+  split; [|split].
+  - subst s. rewrite !loads_eq. apply loads_from_pair; [exact Hstep|].
+    apply Forall2_repeat; exact H0.
+  - apply loads_length.
+  - apply loads_sum; [exact Hv|]. rewrite map_length. exact Hl.
+Qed.
+
+(** --- G2. the weight argument: an item a weighs 2 if it cannot share a bin of
+        capacity T with the item x (a + x > T), and 1 otherwise --- *)
+
+Definition wgt (T x a : Z) : Z := if T <? a + x then 2 else 1.
+
+Lemma wgt_ge_1 T x a : 1 <= wgt T x a.
+Proof. unfold wgt. destruct (T <? a + x); lia. Qed.
+
+(** upper side: bins of load <= T made of items a >= x with 3a > T have weight <= 2 *)
+Definition Pup (T x l wl : Z) : Prop :=
+  0 <= wl /\ 0 <= l /\ (wl = 1 -> x <= l /\ T < 3 * l) /\
+  (wl = 2 -> T < l + x \/ 2 * T < 3 * l) /\ (3 <= wl -> T < l).
+
+Lemma Pup_step T x a l wl : 0 <= x -> x <= a -> T < 3 * a ->
+  Pup T x l wl -> Pup T x (l + a) (wl + wgt T x a).
+Proof.
+  unfold Pup, wgt. intros Hx Hxa HTa (H0 & H1 & H2 & H3 & H4).
+  destruct (T <? a + x) eqn:E; lia.
+Qed.
+
+Lemma weight_upper k T x vs s : 0 <= x -> Forall (fun a => x <= a /\ T < 3 * a) vs ->
+  Attainable k vs s -> Forall (fun a => a <= T) s ->
+  zsum (map (wgt T x) vs) <= 2 * Z.of_nat k.
+Proof.
+  intros Hx Hvs Hs HT.
+  destruct (weights_along (Pup T x) (wgt T x) k vs s) as (t & H1 & H2 & H3).
+  - unfold Pup. lia.
+  - eapply Forall_impl; [|exact Hvs]. intros a [Ha1 Ha2] l wl Hl. apply Pup_step; auto.
+  - exact Hs.
+  - rewrite <- H3.
+    assert (Ht : Forall (fun b => b <= 2) t).
+    { apply (Forall2_transfer (Pup T x) (fun a => a <= T) (fun b => b <= 2)) with (s := s); auto.
+      unfold Pup. intros a b Hab Ha. lia. }
+    pose proof (zsum_le_bound 2 t Ht) as H4. rewrite H2 in H4. lia.
+Qed.
+
+(** lower side: a bin whose load exceeds T - x (with x <= T) has weight >= 2 *)
+Definition Plow (T x l wl : Z) : Prop :=
+  0 <= wl /\ (wl = 0 -> l <= 0) /\ (wl = 1 -> l + x <= T).
+
+Lemma Plow_step T x a l wl : Plow T x l wl -> Plow T x (l + a) (wl + wgt T x a).
+Proof.
+  unfold Plow, wgt. intros (H0 & H1 & H2).
+  destruct (T <? a + x) eqn:E; lia.
+Qed.
+
+Lemma weight_lower k T x vs s : x <= T -> Attainable k vs s -> Forall (fun a => T < a + x) s ->
+  2 * Z.of_nat k <= zsum (map (wgt T x) vs).
+Proof.
+  intros HxT Hs HT.
+  destruct (weights_along (Plow T x) (wgt T x) k vs s) as (t & H1 & H2 & H3).
+  - unfold Plow. lia.
+  - apply Forall_forall. intros a _ l wl Hl. apply Plow_step; exact Hl.
+  - exact Hs.
+  - rewrite <- H3.
+    assert (Ht : Forall (fun b => 2 <= b) t).
+    { apply (Forall2_transfer (Plow T x) (fun a => T < a + x) (fun b => 2 <= b)) with (s := s); auto.
+      unfold Plow. intros a b Hab Ha. lia. }
+    pose proof (zsum_ge_bound 2 t Ht) as H4. rewrite H2 in H4. lia.
+Qed.
+
+(** the "at most two items per bin" case of Graham's proof, as a contradiction:
+    if all items are > T/3 and at least x, the items l cannot fill every bin above T - x
+    while l ++ [x] still fits into k bins of capacity T *)
+Lemma two_per_bin_contra k T x l g s : 0 <= x -> x <= T -> T < 3 * x ->
+  Forall (fun a => x <= a) l ->
+  Attainable k l g -> Forall (fun a => T < a + x) g ->
+  Attainable k (l ++ [x]) s -> Forall (fun a => a <= T) s -> False.
+Proof.
+  intros Hx HxT HTx Hl Hg HgT Hs HsT.
+  pose proof (weight_lower k T x l g HxT Hg HgT) as H1.
+  assert (Hall : Forall (fun a => x <= a /\ T < 3 * a) (l ++ [x])).
+  { apply Forall_app. split.
+    - eapply Forall_impl; [|exact Hl]. intros a Ha. cbv beta in Ha. lia.
+    - constructor; [lia|constructor]. }
+  pose proof (weight_upper k T x (l ++ [x]) s Hx Hall Hs HsT) as H2.
+  rewrite map_app, zsum_app in H2. simpl zsum in H2.
+  pose proof (wgt_ge_1 T x x). lia.
+Qed.
+
+(** --- G3. the main induction over the prefixes of the sorted sequence --- *)
+
+(** greedy on a non-increasing sequence of non-negative values against ANY attainable vector *)
+Theorem lpt_43_values k : (1 <= k)%nat -> forall l s,
+  StronglySorted (fun a b : Z => b <= a) l -> Forall (fun v => 0 <= v) l -> Attainable k l s ->
+  3 * Z.of_nat k * zmax (vgreedy l (repeat 0 k)) <= (4 * Z.of_nat k - 1) * zmax s.
+Proof.
+  intros Hk l. induction l as [|x l IH] using rev_ind; intros s Hsort Hpos Hs.
+  - apply Attainable_nil_inv in Hs. subst s. unfold vgreedy. cbn [fold_left].
+    rewrite zmax_repeat0. lia.
+  - destruct (sorted_desc_snoc l x Hsort) as [Hsl Hxl].
+    apply Forall_app in Hpos. destruct Hpos as [Hposl Hposx].
+    inversion Hposx as [|x' t' Hx _]; subst.
+    destruct (Attainable_snoc_inv _ _ _ _ Hs) as (s' & i & Hs' & Hi & Es).
+    assert (HT' : zmax s' <= zmax s) by (rewrite Es; apply zmax_update_mono; exact Hx).
+    specialize (IH s' Hsl Hposl Hs').
+    assert (Hposlx : Forall (fun v => 0 <= v) (l ++ [x])) by (apply Forall_app; auto).
+    destruct (Attainable_bounds k (l ++ [x]) Hposlx s Hs) as [_ Hvals].
+    apply Forall_app in Hvals. destruct Hvals as [_ HxT]. pose proof (Forall_inv HxT) as HxT0. cbv beta in HxT0.
+    pose proof (zsum_le_len_max s) as Hsum.
+    rewrite (Attainable_length _ _ _ Hs), (Attainable_sum _ _ _ Hs), zsum_app in Hsum.
+    simpl zsum in Hsum.
+    set (T := zmax s) in *. set (K := Z.of_nat k) in *.
+    assert (HK : 1 <= K) by (unfold K; lia).
+    pose proof (vgreedy_attainable k l Hk) as Hg.
+    set (g := vgreedy l (repeat 0 k)) in *.
+    pose proof (Attainable_length _ _ _ Hg) as Hglen.
+    assert (Hg1 : (1 <= length g)%nat) by lia.
+    rewrite vgreedy_snoc. fold g.
+    pose proof (argmin_least g Hg1) as Hleast.
+    pose proof (zsum_ge_bound _ _ Hleast) as Hmn.
+    rewrite Hglen, (Attainable_sum _ _ _ Hg) in Hmn. fold K in Hmn.
+    set (mn := nth (argmin g) g 0) in *.
+    assert (HKT : 0 <= (K - 1) * T) by (apply Z.mul_nonneg_nonneg; lia).
+    destruct (vstep_max_cases g x Hg1) as [Hc|Hc].
+    + (* the maximum did not change: induction hypothesis *)
+      assert (H1 : 3 * K * zmax (vstep g x) <= 3 * K * zmax g) by (apply Z.mul_le_mono_nonneg_l; lia).
+      assert (H2 : (4 * K - 1) * zmax s' <= (4 * K - 1) * T) by (apply Z.mul_le_mono_nonneg_l; lia).
+      lia.
+    + (* the last (smallest) item determines the maximum *)
+      fold mn in Hc. rewrite Hc.
+      destruct (Z.le_gt_cases (mn + x) T) as [Hle|Hgt].
+      * assert (H1 : 3 * K * (mn + x) <= 3 * K * T) by (apply Z.mul_le_mono_nonneg_l; lia).
+        lia.
+      * destruct (Z.le_gt_cases (3 * x) T) as [Hsmall|Hbig].
+        -- assert (H1 : (K - 1) * (3 * x) <= (K - 1) * T) by (apply Z.mul_le_mono_nonneg_l; lia).
+           lia.
+        -- exfalso. apply (two_per_bin_contra k T x l g s); auto.
+           ++ eapply Forall_impl; [|exact Hleast]. intros a Ha. cbv beta in Ha. fold mn in Ha. lia.
+           ++ apply zmax_ge.
+Qed.
+
+(** removing the last value does not increase the min-max optimum (not needed by the proof above,
+    which restricts the competing assignment directly through [Attainable_snoc_inv]) *)
+Lemma opt_monotone_prefix k vs x o o' : 0 <= x ->
+  Opt MinLargest k vs o -> Opt MinLargest k (vs ++ [x]) o' -> o <= o'.
+Proof.
+  intros Hx [_ Hmin] [(s & Hs & Ev) _]. rewrite value_MinLargest in Ev. subst o'.
+  destruct (Attainable_snoc_inv _ _ _ _ Hs) as (s' & i & Hs' & Hi & Es).
+  specialize (Hmin s' Hs'). rewrite value_MinLargest in Hmin.
+  pose proof (zmax_update_mono s' i x Hx) as H. rewrite <- Es in H. lia.
+Qed.
+
+Section Ratio3.
+  Context {A : Type} (valueof : A -> Z) (keep : bool).
+
+  (** greedy against any way of distributing the values over k bins *)
+  Theorem lpt_ratio_43_attainable k items s : (1 <= k)%nat ->
+    Forall (fun x => 0 <= valueof x) items -> Attainable k (map valueof items) s ->
+    3 * Z.of_nat k * zmax (sums (greedy valueof keep k items)) <= (4 * Z.of_nat k - 1) * zmax s.
+  Proof.
+    intros Hk Hpos Hs. rewrite greedy_sums_vgreedy.
+    apply lpt_43_values; [exact Hk|apply sorted_values_sorted|apply sorted_values_nonneg; exact Hpos|].
+    apply (Attainable_perm_local k (map valueof items)); [|exact Hs].
+    symmetry. apply sorted_values_perm.
+  Qed.
+
+  (** 3. Graham's bound  L <= (4/3 - 1/(3k)) OPT *)
+  Theorem lpt_ratio_43 k items opt : Opt MinLargest k (map valueof items) opt -> (1 <= k)%nat ->
+    Forall (fun x => 0 <= valueof x) items ->
+    3 * Z.of_nat k * zmax (sums (greedy valueof keep k items)) <= (4 * Z.of_nat k - 1) * opt.
+  Proof.
+    intros [(s & Hs & Ev) _] Hk Hpos. rewrite value_MinLargest in Ev. subst opt.
+    apply lpt_ratio_43_attainable; auto.
+  Qed.
+End Ratio3.
+
+(** the bound is attained: k = 2, values 3,3,2,2,2: greedy gives 7, the optimum is 6, and 3*2*7 = (4*2-1)*6 *)
+Example lpt_ratio_43_tight :
+  sums (greedy (fun v : Z => v) true 2 [3; 3; 2; 2; 2]) = [7; 5] /\
+  loads 2 [3; 3; 2; 2; 2] [0; 0; 1; 1; 1]%nat = [6; 6].
+Proof. vm_compute. split; reflexivity. Qed.
+
+(** non-negativity cannot be dropped from the ratio bounds: greedy on [-1; -1] with 2 bins
+    gives [-2; 0], i.e. L = 0, while the assignment [0; 1] has largest sum -1, so opt <= -1 < 0
+    and both (2k-1) * opt and (4k-1) * opt are negative whereas k * L = 0 *)
+Example lpt_ratio_needs_nonneg :
+  sums (greedy (fun v : Z => v) true 2 [-1; -1]) = [-2; 0] /\
+  loads 2 [-1; -1] [0; 1]%nat = [-1; -1].
+Proof. vm_compute. split; reflexivity. Qed.
+
+Print Assumptions opt_minlargest_lower_bounds.
+Print Assumptions lpt_graham_partial.
+Print Assumptions lpt_ratio_2.
+Print Assumptions lpt_ratio_43_attainable.
+Print Assumptions lpt_ratio_43.
+Print Assumptions lpt_min_partial.
+Print Assumptions gap_ratio_2.
+Print Assumptions gap_min_bound.
+Print Assumptions greedy_attainable.
+Print Assumptions Attainable_perm_local.
+Print Assumptions opt_monotone_prefix.
+Print Assumptions lpt_43_values.
